@@ -66,8 +66,12 @@ def plan(tier, seed):
 def layout(toks, rng, crlf):
     """Random multi-line layout. Returns bytes."""
     out = bytearray()
-    if rng.random() < 0.5:
+    r = rng.random()
+    if r < 0.4:
         out += b"# \xc3\xa9\xc3\xa9 leading \xe2\x82\xac\n"
+    elif r < 0.6:
+        # the script starts with line breaks / blanks (offset 0 is a line break)
+        out += rng.choice([b"\n", b"\n\n", b" \n", b"\t\n \n", b"\n#c\n", b"/**/\n"])
     for i, t in enumerate(toks):
         if i:
             p = toks[i - 1]
